@@ -40,6 +40,11 @@ Definition norm_obs (o : obs) : obs := match o with OErr ENOENT => OErr E404 | _
 Definition fs_obs (cfg : fscfg) (st : fstate) (ops : list op) : list obs :=
   map (fun r => norm_obs (fst (fst r))) (fs_run cfg st ops).
 
+(* the operations that open, feed and commit a stream in one go (Put, PutStream+Write*+commit,
+   PutVec) and the reads — as opposed to streams kept open across other operations *)
+Definition atomic_op (o : op) : bool :=
+  match o with OOpen | OWrite _ _ | OCommit _ _ => false | _ => true end.
+
 Definition op_storable (cfg : fscfg) (o : op) : Prop :=
   match key_of o with Some k => exists d, storable cfg k d | None => True end.
 
@@ -147,12 +152,12 @@ Section Refine.
   Qed.
 
   Lemma step_rel : forall st s o, rel st s -> op_ok (@Some (list N)) s o = true -> op_storable cfg o ->
-    (fs_ctr st < 2 ^ 254)%N ->
+    atomic_op o = true -> (fs_ctr st < 2 ^ 254)%N ->
     norm_obs (snd (fst (fs_step cfg st o))) = snd (spec_step (@Some (list N)) true s o) /\
     rel (fst (fst (fs_step cfg st o))) (fst (spec_step (@Some (list N)) true s o)) /\
     (fs_ctr (fst (fst (fs_step cfg st o))) <= fs_ctr st + 1)%N.
   Proof.
-    intros st s o R OK ST CT.
+    intros st s o R OK ST AT CT.
     assert (OPEN : forall k d, storable cfg k d ->
               exists lg, fs_open cfg (fs_fs st) k =
                          Some (match lookup k (s_map s) with Some c => Ok (File c) | None => Err ENOENT end, lg)).
@@ -214,16 +219,21 @@ Section Refine.
       rewrite EG. rewrite (storable_path k d HS). unfold do_sys.
       rewrite (read_result (fs_fs st) k d (SStat d) (r_good _ _ R) HS) by auto.
       rewrite (r_map _ _ R k d HS). destruct (lookup k (s_map s)); simpl; (split; auto; split; [apply R|lia]).
+    - discriminate.
+    - discriminate.
+    - discriminate.
   Qed.
 
   Theorem fs_refines_from : forall ops st s, rel st s ->
     hist_ok (@Some (list N)) true s ops = true -> Forall (op_storable cfg) ops ->
+    forallb atomic_op ops = true ->
     (fs_ctr st + N.of_nat (length ops) < 2 ^ 254)%N ->
     fs_obs cfg st ops = spec_run (@Some (list N)) true s ops.
   Proof.
-    induction ops; intros st s R OK ST CT; simpl in *. reflexivity.
+    induction ops; intros st s R OK ST AT CT; simpl in *. reflexivity.
     apply andb_true_iff in OK. destruct OK as [O1 O2]. inversion ST; subst.
-    destruct (step_rel st s a R O1 H1) as [E [R' C']]. lia.
+    apply andb_true_iff in AT. destruct AT as [A1 A2].
+    destruct (step_rel st s a R O1 H1 A1) as [E [R' C']]. lia.
     unfold fs_obs. simpl.
     destruct (fs_step cfg st a) as [[st1 ob] lg]. destruct (spec_step (@Some (list N)) true s a) as [s1 ob2].
     simpl in *. f_equal; auto. apply IHops; auto. lia.
